@@ -63,6 +63,7 @@ class Executor:
         self.any_fault_fired = False
         self.prior_calls = 0
         self.ref_digests = []
+        self.census_cache = {}
         self.probes = [[id(object()), 0, 0]]
 
     # ----------------------------------------------------------- set-up
@@ -90,9 +91,9 @@ class Executor:
             self.files.install()
         self.clock = None
         if m.get('clock', True):
-            self.clock = seams.SimClock()
+            self.clock = seams.SimClock(m.get('clock_start', 738000))
             self.clock.rollover = bool(m.get('rollover'))
-            note = self.clock.install()
+            note = self.clock.install(self.mods)
             if note:
                 self.notes.append(note)
         self.probe = None
@@ -444,12 +445,24 @@ class Executor:
         self.stats['faults_armed'][kind] = self.stats['faults_armed'].get(kind, 0) + 1
         if kind == 'seek-fail':
             return {'kind': kind}
-        cen = self.census(call)
+        if 'rank' in fault:
+            # sweep: the same subject call is crashed rank by rank; one census
+            # of it serves the whole sweep
+            from sim import record
+            key = record.digest(call)
+            if key not in self.census_cache:
+                self.census_cache[key] = self.census(call)
+            cen = self.census_cache[key]
+        else:
+            cen = self.census(call)
         if kind == 'crash':
             funcs = [f for f in cen['funcs'] if f[2] > 0]
             if not funcs:
                 return None
-            f = funcs[int(fault['u_func'] * len(funcs)) % len(funcs)]
+            if 'rank' in fault:     # systematic sweep over executed functions
+                f = funcs[fault['rank'] % len(funcs)]
+            else:
+                f = funcs[int(fault['u_func'] * len(funcs)) % len(funcs)]
             ordinal = int(fault['u_ord'] * f[2]) % f[2]
             return {'kind': 'crash', 'target': ((f[0], f[1]), ordinal)}
         if self.files is None:
